@@ -1,4 +1,5 @@
 import DdsProofs.Paths
+import DdsProofs.Acyclic
 /-!
 # C11 — ill-formed evaluations are rejected … whatever the order (the overlap part)
 
@@ -6,6 +7,13 @@ import DdsProofs.Paths
 `non_terminal_leaves` reports something **iff** some path of the list is a strict prefix
 (segment-wise) of another one. `order_irrelevant` makes the order-independence explicit.
 (The root path `/` — zero segments — as a kept path is outside this statement: see DESIGN §6.)
+
+Cycles and nested evaluations (whole model, any depth, any edge kind — call, call with arguments, reference, keep,
+data function):
+* `cycle_rejected`       — if some call path from the evaluated function repeats a function, the analysis fails;
+* `nested_eval_rejected` — if the evaluated function, or any function on a call path from it, contains a `dds.eval`,
+                           the analysis fails;
+* `rejection_no_effect`  — a rejected evaluation runs no user code and leaves the store exactly as it was.
 -/
 namespace Dds.C11
 open Dds List
@@ -45,5 +53,63 @@ theorem order_irrelevant (ps qs : List Segs) (h : ps.Perm qs) :
 /-- non-vacuity, and the witness on which the code as originally written failed (`/f, /x, /f/g`) -/
 example : nonTerminalLeaves [["f"], ["x"], ["f", "g"]] = [["f"]] := by decide +kernel
 example : nonTerminalLeaves [["f"], ["x"], ["g", "f"]] = [] := by decide +kernel
+
+/-- a call cycle reachable from the evaluated function (of any length, through any kind of edge) is rejected -/
+theorem cycle_rejected {m : Nat} {W : World} {fn : Fn} {p : List String} (hp : CallPath W fn p) (hcyc : ¬ p.Nodup)
+    (fuel : Nat) (refs : Refs) (ctx : ArgCtx) (r : FIS × Refs) : analyse m W fuel refs [] fn ctx ≠ .ok r :=
+  fun h => hcyc ((accepted_paths fuel h).2 p hp).1
+
+/-- a `dds.eval` inside the evaluated function or inside anything it reaches is rejected -/
+theorem nested_eval_rejected {m : Nat} {W : World} {fn : Fn} {p : List String} (hp : CallPath W fn p)
+    (hev : (∃ it ∈ fn.items, it.isEval) ∨ ∃ n ∈ p, ∃ g, W.find n = some g ∧ ∃ it ∈ g.items, it.isEval)
+    (fuel : Nat) (refs : Refs) (ctx : ArgCtx) (r : FIS × Refs) : analyse m W fuel refs [] fn ctx ≠ .ok r := by
+  intro h
+  obtain ⟨k0, k⟩ := accepted_paths fuel h
+  rcases hev with ⟨it, hit, he⟩ | ⟨n, hn, g, hg, it, hit, he⟩
+  · exact k0 it hit he
+  · exact (k p hp).2.2 n hn g hg it hit he
+
+/-- a rejected evaluation executes nothing and leaves the store as it was -/
+theorem rejection_no_effect (m : Nat) (W : World) (S : PStore) (rq : Request) (e : DdsErr)
+    (h : analysisPhase m W S rq = .error e) :
+    (evalStep m W S rq).log = [] ∧ (evalStep m W S rq).store = S ∧ (evalStep m W S rq).value = .error (.dds e) := by
+  simp [evalStep, h]
+
+/-- non-vacuity: a cycle of length two through a keep and a plain call, and its rejection computed by the model -/
+def cycA : Fn where
+  name := "fa"
+  lines := ["def fa():", "    r0 = dds.keep('/p', fb)", ""]
+  tag := "fa#0"
+  params := []
+  storePath := none
+  vars := []
+  exts := []
+  items := [Item.keep "/p" "fb" [] [] [] [] 1]
+  fails := none
+  usesExt := false
+def cycB : Fn where
+  name := "fb"
+  lines := ["def fb():", "    r0 = fa()", ""]
+  tag := "fb#0"
+  params := []
+  storePath := none
+  vars := []
+  exts := []
+  items := [Item.call "fa" 1]
+  fails := none
+  usesExt := false
+def cycW : World := { funs := [cycA, cycB], extVersion := 0 }
+
+example : CallPath cycW cycA ["fb", "fa", "fb"] :=
+  .cons cycA (Item.keep "/p" "fb" [] [] [] [] 1) "fb" cycB _ (by simp [cycA]) rfl (by rfl)
+    (.cons cycB (Item.call "fa" 1) "fa" cycA _ (by simp [cycB]) rfl (by rfl)
+      (.cons cycA (Item.keep "/p" "fb" [] [] [] [] 1) "fb" cycB _ (by simp [cycA]) rfl (by rfl) (.nil _)))
+
+def errIs (o : Outcome) (e : DdsErr) : Bool :=
+  match o.value with
+  | .error (.dds e') => e' == e
+  | _ => false
+
+example : errIs (evalStep 100 cycW {} { kind := .eval, fn := "fa" }) .circularCall = true := by decide +kernel
 
 end Dds.C11
